@@ -102,7 +102,7 @@ impl BitFont {
     pub fn calculate_checksum(&mut self) {
         let mut crc = 0;
         for ch in 0..self.length {
-            if let Some(glyph) = self.get_glyph(unsafe { char::from_u32_unchecked(ch as u32) }) {
+            if let Some(glyph) = char::from_u32(ch as u32).and_then(|c| self.get_glyph(c)) {
                 for b in &glyph.data {
                     crc = update_crc32(crc, *b);
                 }
@@ -122,7 +122,7 @@ impl BitFont {
     pub fn convert_to_u8_data(&self) -> Vec<u8> {
         let mut result = Vec::new();
         for ch in 0..self.length {
-            if let Some(glyph) = self.get_glyph(unsafe { char::from_u32_unchecked(ch as u32) }) {
+            if let Some(glyph) = char::from_u32(ch as u32).and_then(|c| self.get_glyph(c)) {
                 result.extend_from_slice(&glyph.data);
             } else {
                 log::error!("Glyph not found for char: {}", ch);
@@ -271,7 +271,7 @@ impl BitFont {
 
         // glyphs
         for i in 0..self.length {
-            data.extend(&self.get_glyph(unsafe { char::from_u32_unchecked(i as u32) }).unwrap().data);
+            data.extend(&char::from_u32(i as u32).and_then(|c| self.get_glyph(c)).unwrap().data);
         }
 
         Ok(data)
@@ -364,11 +364,15 @@ macro_rules! fonts {
 fn glyphs_from_u8_data(font_height: usize, mut data: &[u8]) -> HashMap<char, Glyph> {
     let mut glyphs = HashMap::new();
     let mut ch = 0;
-    while !data.is_empty() {
+    // a glyph height of 0 would never consume the data; a trailing partial glyph is dropped
+    while font_height > 0 && data.len() >= font_height {
+        let Some(key) = char::from_u32(ch as u32) else {
+            break;
+        };
         let glyph = Glyph {
             data: data[..font_height].into(),
         };
-        glyphs.insert(unsafe { char::from_u32_unchecked(ch as u32) }, glyph);
+        glyphs.insert(key, glyph);
 
         data = &data[font_height..];
         ch += 1;
